@@ -122,6 +122,8 @@ _R = [0.5, 0.75, 1.0, 1.25, 1.5, 2.0]
 def _op_st(draw, game, offs, writable=True):
     # three equally likely groups, so the (few) game-specific converters / writers / algorithms come up often
     own = [n for n in GAME_OPS[game] if writable or n not in ("write", "write_file")]
+    if game == "osu":
+        own = own + ["hitsound_copy", "hitsound_copy"]  # the only two-argument operation, three roles
     group = draw(st.sampled_from([LIST_OPS, MAP_OPS, own]))
     name = draw(st.sampled_from(group))
     t_st = st.one_of(
@@ -604,7 +606,7 @@ def _m_ptn_combo(env, o):
 def _m_hitsound_copy(env, o):
     from reamber.algorithms.osu.hitsound_copy import hitsound_copy
 
-    role = ["src", "tgt", "both"][o["k"] % 3]
+    role = ["src", "tgt", "both"][(o["k"] + 2 * o["f"][0] + o["f"][1]) % 3]
     if env.other is None:
         role = "both"
     env.variants.append(role)
@@ -859,7 +861,7 @@ def check(case, ctx):
 
 
 SUBS = [
-    Sub("ops", check, strategy=case_st, examples={"quick": 320, "thorough": 2500}, shards={"quick": 12, "thorough": 16}),
+    Sub("ops", check, strategy=case_st, examples={"quick": 480, "thorough": 2500}, shards={"quick": 12, "thorough": 16}),
 ]
 
 MANIFEST = dict(
